@@ -29,6 +29,7 @@ const (
 	idEmptyRoot    = "C20-query-empty-apphash-any-value" // against an empty trusted app hash an uncomputable proof root (nil) "matches": any forged key/value is relayed
 	idBlockSearch  = "C20-blocksearch-unverified" // BlockSearch relays blocks without verifying them
 	idProxyRoutes  = "C20-proxy-route-args" // light/proxy route table: argument names of block_search (net_info, genesis_chunked) do not match the functions
+	idAbsence      = "C20-absence-keypath" // honest absence proofs always refused: VerifyAbsence gets the raw key instead of the key path
 	idLatestNil    = "C20-latest-nil-deref" // Commit/Validators without a height panic when the light client is already at the tip
 )
 
@@ -238,6 +239,26 @@ func TestHonest(t *testing.T) {
 						known, kcls = idKeyPath, "x-prefix"
 					}
 					r.expect("ABCIQuery", shape+",key="+kcls, gq, err, wq, werr, known, inc)
+
+					// a key the store does not have: the application proves its absence with its own operator
+					var absent [][]byte
+					for _, cand := range w.keys {
+						if _, ok := w.kv.Get(h, s, cand); !ok {
+							absent = append(absent, cand)
+						}
+					}
+					if len(absent) > 0 && rapid.IntRange(0, 2).Draw(t, "qabsent") == 0 {
+						ak := rapid.SampledFrom(absent).Draw(t, "qabsentkey")
+						ga, err := c.ABCIQueryWithOptions(bg, path, ak, wopts)
+						wa, werr := core.ABCIQueryWithOptions(bg, path, ak, wopts)
+						inc = nil
+						if err == nil {
+							if inc = w.consistentQuery(path, ga); inc == nil && ga.Response.Value != nil {
+								inc = bad("value", "a value for an absent key")
+							}
+						}
+						r.expect("ABCIQuery", shape+",absent-key", ga, err, wa, werr, idAbsence, inc)
+					}
 				}
 			}
 		}
